@@ -65,4 +65,4 @@ Fixpoint run_steps (cfg : list rprefix) (self : N) (t : list entry) (l : list cs
   end.
 
 Definition c11_case := (list rprefix * N * list cstep)%type.
-Definition c11_ok (c : c11_case) : bool := let '(cfg, self, steps) := c in run_steps cfg self [] steps.
+Definition c11_ok (c : c11_case) : bool := let '(cfg, self, steps) := c in cfg_ok cfg && run_steps cfg self [] steps.
